@@ -210,6 +210,8 @@ where
         let mut instructions = from_program.header().instructions();
         let mut current_sequence_base_address = None;
         let mut from_base_address = 0;
+        // Offset of the last row generated in the current output sequence.
+        let mut last_address_offset = 0;
 
         while let Some(instruction) = instructions.next_instruction(from_program.header())? {
             match instruction {
@@ -235,6 +237,7 @@ where
 
                             if current_sequence_base_address.is_some() {
                                 program.begin_sequence(current_sequence_base_address);
+                                last_address_offset = 0;
                             }
                         }
 
@@ -252,7 +255,23 @@ where
 
                             // either sequence_base_address or row_address is not resolved, ignore this entry.
                             if let Some(write::Address::Constant(address)) = row_address {
-                                let address_offset = address.saturating_sub(base_address);
+                                // Functions may have been reordered, so a sequence that
+                                // covers several functions does not necessarily stay
+                                // monotone. Addresses within one sequence must not
+                                // decrease: close the sequence after the previous row and
+                                // continue in a new one that starts at this address.
+                                let base_address = if address < base_address + last_address_offset
+                                {
+                                    program.end_sequence(last_address_offset + 1);
+                                    current_sequence_base_address =
+                                        Some(write::Address::Constant(address));
+                                    program.begin_sequence(current_sequence_base_address);
+                                    last_address_offset = 0;
+                                    address
+                                } else {
+                                    base_address
+                                };
+                                let address_offset = address - base_address;
 
                                 if from_row.end_sequence() {
                                     program.end_sequence(address_offset);
@@ -292,6 +311,7 @@ where
                                     program.row().epilogue_begin = from_row.epilogue_begin();
                                     program.row().isa = from_row.isa();
                                     program.generate_row();
+                                    last_address_offset = address_offset;
                                 }
                             }
                         }
